@@ -179,11 +179,15 @@ const FILE_LINES: &[&str] = &[
     "40 PRINT \"é\" + 1", "50 REM é 😊", "15 FOR I = 1 TO 2: NEXT I\r", "20 DEF F(X) = X: PRINT F(Y)", "60 A$ = 1", "  70 END",
     "20 Y = A$ = B$", "80 IF X THEN 10 ELSE 20", "80 IF X THEN PRINT \"日本\" ELSE GOSUB 10", "90 DIM A(3): A(1) = 2: PRINT A(1)",
     "90 READ A, B$: DATA 1, \"x\"", "95 INPUT Q$", "95 NEXT", "97 PRINT F(1)", "98 S$ = S$ = T$", "99 PRINT +\"A\"", "\t", "   ", "10 😊", "5 DATA é, \"é\": PRINT \"é\" - 1",
+    "２０ PRINT 1", "1０ PRINT 2", "① x", "² y", "١٠ PRINT 1", " ２ REM", "10 PRINT ２",
     "18446744073709551615 END", "18446744073709551616 END", "0 PRINT", "7 FOR I$ = 1 TO 2", "8 NEXT I$", "9 PRINT NOT \"a\" + 1", "9 PRINT (1", "10 X = ",
 ];
 
 pub fn random_file(rng: &mut StdRng) -> String {
-    let n = rng.gen_range(0..=7);
+    // mostly short files; one in 80 is long (20-60 lines), and long files may hold very long
+    // lines (dozens of tokens, several hundred columns)
+    let long_file = rng.gen_bool(0.012);
+    let n = if long_file { rng.gen_range(20..=60) } else { rng.gen_range(0..=7) };
     let mut lines: Vec<String> = vec![];
     for _ in 0..n {
         if rng.gen_bool(0.75) {
@@ -191,6 +195,15 @@ pub fn random_file(rng: &mut StdRng) -> String {
         } else {
             let l = crate::lexrec::random_line(rng);
             lines.push(if rng.gen_bool(0.8) { format!("{} {}", rng.gen_range(1..100) * 10, l) } else { l });
+        }
+        if long_file && rng.gen_bool(0.05) {
+            // a very long line: many items, a long string with multi-byte text, and maybe an error at its far end
+            let k = rng.gen_range(40..=90);
+            let mut l = format!("{} PRINT ", rng.gen_range(1..70000u32));
+            for j in 0..k { l.push_str(["1;", "X9;", "\"é\";", "A$;", "2+3;", "Q(1);"][j % 6]); }
+            l.push_str(["", "+", "\"", "é", " : GOTO 99999", " : Y = \"s\" + 1"][rng.gen_range(0..6)]);
+            let last = lines.len() - 1;
+            lines[last] = l;
         }
         // indentation before the line number (blanks, tabs) and a CR at the end must not move any range
         if rng.gen_bool(0.2) {
